@@ -66,7 +66,7 @@ def walks(run, machine, gen_cfg, n, length, seed):
 
 
 def check(pid, tier, seed, machine, mc_cfg, gen_cfg, trace_module, adapter, sig, corrupt, tour_cap, n_walks, walk_len,
-          extra_items=None, variants=None, rule="", assumptions=(), run=None, finish=True, nontrivial=None, adapter_fn="run_trace"):
+          extra_items=None, variants=None, post_actions=None, fresh_process=False, rule="", assumptions=(), run=None, finish=True, nontrivial=None, adapter_fn="run_trace"):
     import time
     run = run or Run(pid, tier, seed)
     T = [time.time()]
@@ -84,11 +84,13 @@ def check(pid, tier, seed, machine, mc_cfg, gen_cfg, trace_module, adapter, sig,
     t_items, exh = tour(all_items, tour_cap, rng)
     w_items = walks(run, machine, gen_cfg, n_walks, walk_len, seed)
     actions = t_items + w_items + list(extra_items or [])
+    if post_actions:
+        actions = [post_actions(a) for a in actions]
     items = [{"id": i, "actions": a} for i, a in enumerate(actions)]
     if variants:
         for it in items:
             it.update(variants[it["id"] % len(variants)])
-    traces = pool.map_items(adapter, adapter_fn, items)
+    traces = pool.map_items(adapter, adapter_fn, items, **({'fresh_every': 1, 'chunksize': 1, 'initname': None} if fresh_process else {}))
     lap('replay')
     # 4 monitor
     bad, judged = monitor.judge(trace_module, traces, run.work + "/mon")
